@@ -368,6 +368,17 @@ class ApplyWatch:
         self.sim.apply_hook = None
 
 
+def end_of_run():
+    """In-process runs (ISOLATION="thread"): every opened repository survives as garbage
+    the collector cannot free (bound methods such as repo.is_locked are held by the Rust
+    index / versioned-file objects, ~1000 objects per run).  Collect what can be collected,
+    then move the survivors out of the collector's sight so that its cost stays constant."""
+    import gc
+
+    gc.collect()
+    gc.freeze()
+
+
 def chain_has(exc, target):
     seen = set()
     todo = [exc]
